@@ -768,6 +768,10 @@ USER_DIALECTS = {
     "strategies": ["serialization_strategy = {bytes: {'serialize': _ser_bytes, 'deserialize': _de_bytes}, "
                    "datetime.date: {'serialize': _ser_date, 'deserialize': _de_date}}"],
     "passthrough": ["serialization_strategy = {uuid.UUID: pass_through, int: {'serialize': _ser_int}}"],
+    # strategy *objects* and pass_through for the types the format dialects themselves register (date, datetime, UUID, bytes):
+    # merging with the format dialect must keep the user's whole registration
+    "strategy_objects": ["serialization_strategy = {datetime.date: _DateSt(), uuid.UUID: _UuidSt(), bytes: _BytesSt()}"],
+    "pass_natives": ["serialization_strategy = {datetime.date: pass_through, datetime.datetime: pass_through, bytes: pass_through}"],
     "nt_as_dict": ["namedtuple_as_dict = True"],
     "no_copy_none": ["no_copy_collections = ()"],
     "no_copy_list": ["no_copy_collections = (list,)"],
@@ -783,7 +787,11 @@ def fcodec_source(fmt, shape, ud):
            f"import {m} as _m", f"from {m} import {dn}, {en}",
            "def _ser_date(v):\n    return v.toordinal()", "def _de_date(v):\n    return datetime.date.fromordinal(v)",
            "def _ser_bytes(v):\n    return v.hex()", "def _de_bytes(v):\n    return bytes.fromhex(v)", "def _ser_int(v):\n    return v",
-           "class NTD(NamedTuple):\n    p: datetime.date\n    q: int"]
+           "class NTD(NamedTuple):\n    p: datetime.date\n    q: int",
+           "from mashumaro.types import SerializationStrategy",
+           "class _DateSt(SerializationStrategy):\n    def serialize(self, v):\n        return _ser_date(v)\n    def deserialize(self, v):\n        return _de_date(v)",
+           "class _UuidSt(SerializationStrategy):\n    def serialize(self, v):\n        return v.int\n    def deserialize(self, v):\n        return uuid.UUID(int=v)",
+           "class _BytesSt(SerializationStrategy):\n    def serialize(self, v):\n        return _ser_bytes(v)\n    def deserialize(self, v):\n        return _de_bytes(v)"]
     dd = ""
     if USER_DIALECTS[ud] is not None:
         src.append("class UD(Dialect):")
@@ -924,7 +932,7 @@ def fcodec_lattice(tier):
     out = []
     for fmt in FORMAT_CODECS:
         for ud in USER_DIALECTS:
-            shapes = CODEC_SHAPES if (tier == "thorough" or ud in ("none", "strategies")) else CODEC_SHAPES[:9]
+            shapes = CODEC_SHAPES if (tier == "thorough" or ud in ("none", "strategies", "strategy_objects")) else CODEC_SHAPES[:9]
             for sh in shapes:
                 out.append((fmt, sh, ud))
     return out
@@ -940,8 +948,8 @@ def _extra_task(x):
     return fcodec_task(x)
 
 
-def _extra_codecs(pid, tier):
-    tasks = [(pid,) + x for x in fcodec_lattice(tier)]
+def _extra_codecs(pid, tier, uds=None):
+    tasks = [(pid,) + x for x in fcodec_lattice(tier) if uds is None or x[2] in uds]
     if pid == "C13":
         tasks = [("S2", pid)] + tasks
     res = runner.run_pool(_extra_task, tasks, chunks=2)
